@@ -1129,6 +1129,17 @@ def alloc_check(pid, tier, seed):
         sizes = ','.join(s_out[0].split()[1:]) if s_out and s_out[0].startswith('S') else ''
         hl = ['HTRACE %s %s' % (sizes, l.split(' ', 1)[1]) for l in lines]
         rc, h_out, h_err = run_driver(ctx.model, env.text() + '\n'.join(hl) + '\n', pid.lower() + 'h')
+        # the two models must take the same accept / reject decision when nothing is refused (proved: Proofs/HeapSim.v when present)
+        free_runs = [(i, l) for i, l in enumerate(lines) if l.split()[-1] == '-']
+        if free_runs:
+            ul = ['UNPACK %s %s' % (l.split()[1], l.split()[2]) for _i, l in free_runs]
+            rc, v_out, v_err = run_driver(ctx.model, env.text() + '\n'.join(ul) + '\n', pid.lower() + 'v')
+            for (i, l), v in zip(free_runs, v_out):
+                hv = h_out[i] if i < len(h_out) else ''
+                tally['model_decisions_compared'] = tally.get('model_decisions_compared', 0) + 1
+                if (' U1' in hv) != (v != 'U FAIL'):
+                    viol(run, 'disagreement', 'the value-level and the allocation-level model disagree on accepting this input\n--- schema + case\n%s%s\n--- value model\n%s\n--- allocation model\n%s\n'
+                         % (env.text(), l, v[:500], hv[:500]))
         for i, (l, o) in enumerate(zip(lines, c_out)):
             h = h_out[i] if i < len(h_out) else '<model driver aborted: %s>' % h_err[-300:]
             tally['heap_model_traces'] = tally.get('heap_model_traces', 0) + 1
